@@ -46,8 +46,8 @@ CLAIMS = {
           "bit-exact correspondence + stiff-problem oracles (no theorem yet: partial)", "3/C14", True),
  "C15": C("Coq theorems: with no mass matrix the solvers read the identity whatever the mass storage; Full and Banded storage (and wider bands) holding the same entries denote the same matrix to the solvers." + TIE,
           "Coq proof (storage independence of the model's matrix reads) + bit-exact correspondence", "3/C15", True),
- "C16": C("Tie only in this revision: lu_decomp/lin_solve replayed bit for bit (n=1..12, small-integer exhaustive up to 3x3 in the thorough tier); residual checked in exact rational arithmetic, multipliers, singular and shape errors checked. The exact-arithmetic correctness theorem is not yet proved.",
-          "bit-exact correspondence + exact-rational residual oracle (no theorem yet: partial)", "3/C16", True),
+ "C16": C("Coq theorems over the reals, for every dimension n and every matrix: if lu_decomp succeeds then lin_solve returns x with A.x = b exactly (Hairer DEC/SOL with deferred row swaps, proved by induction over the elimination steps), every pivot is a column maximum so all stored multipliers have magnitude <= 1, success implies non-zero pivots, an exactly zero pivot column is rejected as singular, shape/pivot-length mismatches are rejected (any number type). Not proved: the floating-point backward-error bound (measured by the exact-rational residual oracle on the implementation); the complex twin is tied by replay and oracle only." + TIE,
+          "Coq proof (exact-arithmetic LU/solve correctness, general n) + bit-exact correspondence + exact-rational residual oracle", "3/C16", True),
  "C17": C("Coq theorems for all sizes, bandwidths and indices: every constructor's entries are readable with the expected value (any number type), distinct in-band entries occupy distinct cells, off-band reads are zero, out-of-shape reads and illegal writes panic, a legal write changes exactly one entry; Full+-Full, Banded+-Banded (widened band) and scalar multiples are the entrywise operations (real instance). Mixed-storage sums and component_add/sub are covered by the replay only." + TIE,
           "Coq proof (storage denotation of the Matrix model) + bit-exact operation-sequence correspondence", "3/C17", True),
  "C18": C("Coq theorems for the four explicit solvers (any number type, right-hand side, callback): nfev equals the number of logged right-hand-side evaluations, naccpt <= nstep (RK4: =)." + TIE,
